@@ -273,6 +273,10 @@ class SetAlg:
             return f_and(*[self.member(e, x) for x in t[1:]])
         if h == "diff":
             return f_and(self.member(e, t[1]), *[f_not(self.member(e, x)) for x in t[2:]])
+        if h == "op" and len(t) == 4 and t[1] == "^" and is_term(t[2]) and is_term(t[3]):
+            # membership in A ^ B: only sets (and key views) have both, and there it is the symmetric difference -- in exactly one of them
+            a_, b_ = self.member(e, t[2]), self.member(e, t[3])
+            return f_or(f_and(a_, f_not(b_)), f_and(f_not(a_), b_))
         if h in ("setlit", "listlit", "tuplelit"):
             # `{a, b, *S}`: a starred element contributes all elements of S
             return f_or(*[self.member(e, x[1]) if x[0] == "star" else self.eq_atom(e, x) for x in t[1]])
